@@ -31,14 +31,34 @@ PROPS["C15"] = dict(
          "invalid UTF-8). Byte strings with random content of >= 2^28 bytes are not generated (256 MB per value and copy); the "
          "lengths beyond are covered by the third case type. "
          "Huge bodies (third case type, unit huge_bodies): a value of L ZERO bytes, as []byte and as string, L = 2^21, 2^28 "
-         "(4/5-byte prefix), 2^29, 2^30 each -2..+2, 2^30+2^20+5 (thorough also 2^31, 2^32 each -2..+2, 3*2^30+7, 2^32+2^30+1); "
-         "the value is a window of one arena of zeroed memory whose pages are never written and the sink only counts (it keeps "
-         "the first 16 bytes of the stream), so the unit needs address space, not resident memory (peak in "
-         "huge_bodies_peak_resident_kB); oracle: predicted size - L is 1..10, Marshal into every destination of 0..prefix+6 "
+         "(4/5-byte prefix), 2^29, 2^30, 2^31, 2^32 each -2..+2, 2^30+2^20+5, 3*2^30+7, 2^32+2^30+1 in BOTH tiers (thorough also "
+         "2^33 -2..+2, 2^31+12345, 5*2^30+2^16+3, 2^33+2^32+9); "
+         "the value is a window of one arena of zeroed memory whose pages are never written (an anonymous MAP_NORESERVE "
+         "mapping without transparent huge pages; a fresh Go allocation if that cannot be had) and the sink only counts (it keeps "
+         "the first 16 bytes of the stream), so the unit needs address space, not resident memory or time (peak in "
+         "huge_bodies_peak_resident_kB) - which is why the 2 GiB and 4 GiB boundaries are part of the quick tier; oracle: predicted size - L is 1..10, Marshal into every destination of 0..prefix+6 "
          "bytes -> (0, error), ObjectsWriter returns (predicted size, nil) and the sink received exactly that many bytes, the "
          "bytes after the prefix are zero, and the emitted prefix put in front of the arena's zero bytes decodes (newBuf=false) "
          "to (size, L bytes starting at source[prefix], nil). Not done for these lengths: Marshal into a full-size destination "
          "and newBuf=true (both copy the body). "
+         "Huge streams (fourth case type, units huge_streams_exhaustive / huge_streams): 2..8 items - numbers of every kind and "
+         "byte strings / strings of L zero bytes, L up to 2^33+2^17, at most three of 2^28 bytes and more - written by ONE "
+         "ObjectsWriter into a sink that counts and keeps the first 16 bytes of every item; the lengths of a stream are related: "
+         "a later byte string has the length of an EARLIER one of the same stream + or - k*2^m, m = 8, 16, 31, 32 (the same low "
+         "bits, e.g. 3 bytes ... 2^32+3 bytes, in either order, with or without other items between them), or the same length again, "
+         "or lengths at the 2^7k / 2^16 / 2^31 / 2^32 boundaries, small ones, anything up to 2^33. Oracle: every write returns "
+         "(predicted size, nil) and hands the sink exactly that many bytes; an encoding of up to 64 KiB starts with the same 16 "
+         "bytes as the Marshal encoding, a larger one is rejected by Marshal for every destination of 0..prefix+6 bytes and is a "
+         "prefix of 1..10 bytes followed by zero bytes; then the whole stream is laid out IN PLACE in the arena (what the writer "
+         "emitted for each item is put at the offset where it belongs - the zero bytes between are the bodies; the touched pages "
+         "are given back after the case) and decoded item by item with newBuf=false: (size, value, nil), a byte string of L bytes "
+         "starting at its place in the stream, everything consumed - so values of 2 GiB / 4 GiB and more are also decoded behind "
+         "other items of a concatenation of up to 24 GiB. Exhaustive: first = b bytes (b = 0, 1, 3, 127, 128, 300; thorough 12 values up to "
+         "2^21+1), second = b + k*2^m bytes (m = 8, 16, 31, 32; k = 1, thorough 1..2), the four kind pairs []byte/string, both "
+         "orders, as `first, spacer, second` and `first, spacer, second, spacer, first` with spacer = nothing / uint16 / varint / a "
+         "2-byte string / byte + 77-byte string + uint64, plus the streams 2^p-1, 2^p, 2^p+1 (p = 31, 32); rapid: 3 in 8 byte "
+         "strings derived from an earlier length as above (classes huge_stream_length_congruent_mod_2^N_to_an_earlier_length, "
+         "huge_stream_congruent_lengths_with_items_between, huge_stream_value_ge_2GiB_decoded_behind_other_items). "
          "Writer histories (second case type): 1 goroutine (writers units) or 2..4 goroutines at the same time (writers_concurrent, "
          "-race in the thorough tier, a quarter of the cases with GOMAXPROCS(1)), each with ONE ObjectsWriter value whose exported "
          "Writer field is re-pointed before every item to one of 1..4 destinations of its own: bytes.Buffer (io.StringWriter), a "
@@ -70,7 +90,8 @@ PROPS["C15"] = dict(
          "fixed-width value is within 2 of 2^(8k) or of the top of its range; rejected short destinations are exercised by "
          "every case and counted in short_destination_rejections_checked; a writer history is non-trivial when the Writer field "
          "changed between two items, or a destination is not a bytes.Buffer, or more than one goroutine wrote, or a writer is a copy of a used writer; a huge body is "
-         "non-trivial when its length is within 2 of 2^(7k) or above 2^30; "
+         "non-trivial when its length is within 2 of 2^(7k) or above 2^30; a huge stream when it has a value above 2^30 bytes or two "
+         "byte strings whose different lengths agree in their low 16, 31 or 32 bits; "
          "distinct = FNV hash of the case's JSON form",
     assumptions=["uint is 64 bits wide on the platform of the run (values up to 2^64-1 are given to MarshalUint)",
                  "nothing is asserted about the byte format itself (only round trip, sizes, agreement of the two writers)",
@@ -80,7 +101,8 @@ PROPS["C15"] = dict(
                  "a []byte returned by UnmarshalBytes with newBuf=true ('decoded data is independent') belongs to the caller, who may write every byte of it up to its capacity; later decodes of the same or of other inputs are not affected by that (a decoded string is never written)",
                  "ObjectsWriter may be copied by value, also after it was used: it is an exported struct of an exported io.Writer field and a scratch array, nothing in the package says 'must not be copied' (as bytes.Buffer / strings.Builder / sync types do), go vet's copylocks has nothing to report and the package's own tests use it as a value; each copy is an independent writer ('ObjectsWriter and Marshal emit identical bytes' holds for each), one VALUE is used by one goroutine at a time",
                  "a *bufio.Writer is an ordinary io.Writer for ObjectsWriter: what reaches the underlying sink after Flush is what ObjectsWriter was asked to write, whatever free space the buffer had",
-                 "huge_bodies: a fresh allocation of several GiB is zeroed address space that the operating system backs lazily (Linux anonymous memory); the unit reads at most 16 bytes of the value and writes at most 10 bytes of the arena"],
+                 "huge_bodies / huge_streams: an anonymous private MAP_NORESERVE mapping (or, failing that, a fresh Go allocation) of up to 27 GiB is zeroed address space that the operating system backs lazily (Linux, 64-bit); the units read at most 64 KiB at the start of it and write at most 16 bytes per item, on pages they give back (MADV_DONTNEED) after the case; where that address space cannot be had (mapping refused and more than 6 GiB needed) the case is not decided and listed as inconclusive, never reported as a violation",
+                 "a value that follows other values on the same ObjectsWriter is 'a value' like any other: the writer's result for an item does not depend on the items it has written before (C15 speaks of every value and of any concatenation)"],
     units=[
         dict(name="exhaustive", run="^TestC15Exhaustive$", shards=(2, 8), timeout=(200, 600)),
         dict(name="rapid", run="^TestC15Rapid$", checks=(4000, 60000), shards=(8, 16), timeout=(200, 900)),
@@ -89,6 +111,8 @@ PROPS["C15"] = dict(
         dict(name="writers_concurrent", run="^TestC15RapidWritersConcurrent$", checks=(5000, 40000), shards=(2, 8), timeout=(200, 900),
              race=(False, True)),
         dict(name="huge_bodies", run="^TestC15HugeBodies$", shards=1, timeout=(200, 400)),
+        dict(name="huge_streams_exhaustive", run="^TestC15HugeSeqExhaustive$", shards=(1, 2), timeout=(200, 400)),
+        dict(name="huge_streams", run="^TestC15RapidHugeSeq$", checks=(3000, 50000), shards=(1, 4), timeout=(200, 600)),
         dict(name="fuzz", run="^FuzzC15$", fuzz=(None, "^FuzzC15$"), enabled=(False, True), serial=True, shards=1, timeout=(200, 400),
              args=([], ["-test.fuzz=^FuzzC15$", "-test.fuzztime=75s", "-test.fuzzcachedir={rundir}/fuzzcache", "-test.parallel=16"]),
              env={"VERIF_STATS_PERPID": "1"}),
@@ -102,6 +126,7 @@ LEVEL_TEXT["C15"] = (
     "into every destination length from 0 to size+1 and decoded again, alone and concatenated. No counterexample among the "
     "cases counted in the evidence; not a proof for the 64-bit values and contents that were not drawn. The stream writer is "
     "also driven into io.Writer-only sinks and into bufio.Writers at every fill level; byte strings of 256 MB up to more "
-    "than 1 GiB (thorough: more than 4 GiB; 5-byte prefix) are exercised with zero content only, through a counting sink and "
-    "an in-place decode - Marshal into a full-size destination and newBuf=true are not exercised at those lengths."
+    "than 4 GiB (thorough: 12 GiB; 5-byte prefix) are exercised with zero content only, through a counting sink and "
+    "an in-place decode, alone and as items of one writer's stream behind values whose lengths agree with theirs in the low "
+    "8 / 16 / 31 / 32 bits - Marshal into a full-size destination and newBuf=true are not exercised at those lengths."
 )
